@@ -104,8 +104,9 @@ def factor_cases():
             n_particles=[0, -5, 7.5, "8", 1, 64],
             ess_ratio=[0, 0.0, -1.0, -3, 1, 0.5, 1e-9, "2"],
             volume_variation=[0, 0.0, -0.1, 1e-3, 5, "x"],
-            sample=["hmc", "", "TPCN", "rwm"],
-            resample=["multinomial", "systematic", "syst"],
+            # unknown names, incl. the empty string, fragments, concatenations and other spellings of the valid names
+            sample=["hmc", "", "TPCN", "rwm", "tpc", "rw", "t", "tpcnrwm", "tpcn ", " rwm"],
+            resample=["multinomial", "systematic", "syst", "", "sys", "mul", "m", "ts", "multsyst", "MULT", "syst "],
             periodic=[[0], [2], [3], [-1], [0, 0], [1.0], []],
             reflective=[[0], [3], [-1], ["a"], []]).items():
         for v in vals:
